@@ -19,6 +19,9 @@
 #else
 #define NTH 1
 #endif
+/* a pboolean argument with the given truth value: ANY int whose truthiness is `want` (pboolean is a plain int;
+ * every non-zero value is a legitimate TRUE, e.g. `flags & 4` or -1) */
+static pboolean nd_pbool(_Bool want) { int v = ND_INT(); VASSUME((v != 0) == want); return (pboolean) v; }
 extern void p_uthread_init(void);
 extern void p_uthread_shutdown(void);
 
@@ -80,7 +83,7 @@ void harness(void) {
   te_no_preempt = 1;                          /* the creates themselves are C05_life's subject; threads stay pending */
   for (int i = 0; i < NTH; i++) {
     te_next_slot = i + 1;
-    h[i] = p_uthread_create(thr_main, &body_end[i], TRUE, NULL);
+    h[i] = p_uthread_create(thr_main, &body_end[i], nd_pbool(1), NULL);
     VASSERT(h[i] != NULL, "create succeeds");
   }
   te_no_preempt = 0;
